@@ -8,7 +8,7 @@ CONSTANTS
   NVSpace = "none"
   NCompoundV = "none"
   NKinds = {}
-  FKinds = {"save", "okflag", "use", "ifflag", "ifok", "else"}
+  FKinds = {"save", "use", "ifok", "whok", "whflag"}
   FConds = {"int"}
   FLits = {"a"}
   FDecls = {"is"}
@@ -17,6 +17,6 @@ CONSTANTS
   FBits = 3
   FMaxTicks = 2
   FBug = "none"
-  FFixed = {"alternatives_not_conjoined", "fresh_fake_nodes"}
-INVARIANT InvFlowStrict
+  FFixed = {}
+INVARIANT InvFlowEmit
 CHECK_DEADLOCK FALSE
